@@ -33,7 +33,7 @@ def plan(tier: str, seed: int) -> list[dict]:
 
 
 def hdlc_noise(rng, cfg):
-    kind = rng.choice(("random", "dense", "lookalike", "abort", "esc_end", "truncated", "truncated_after_hcs", "overlong", "flag_esc", "none", "open_frame"))
+    kind = rng.choice(("random", "dense", "lookalike", "abort", "esc_end", "truncated", "truncated_after_hcs", "overlong", "flag_esc", "none", "open_frame", "idle_line", "length_sweep", "short_then_overlong"))
     if kind == "truncated":
         fr, _ = hdlc_gen.good_frame(rng, None, max_info=80, want_info=True)
         w = hdlc_gen.on_wire(fr, cfg[0])
@@ -142,6 +142,19 @@ def run(shard: dict, ctx) -> None:
             else:
                 n, mx = rng.choice((2, 10, 25, 40, 40)), rng.choice((60, 200, 300))
             suffix, sent = resync.hdlc_suffix(rng, cfg, n, mx)
+            if rng.random() < 0.12:
+                # the noise is a damaged relative of the meter's own frames: same format / length field and first address octets as the
+                # first clean frame, another address length, cut short or with a wrong check sequence
+                f0 = hdlc_ref.parse(sent[0][0])
+                sib = hdlc_gen.sibling(rng, {"type": f0.format_type, "seg": f0.segmentation, "dst": f0.destination, "src": f0.source, "ctrl": f0.control, "info": f0.info or b""})
+                if sib is not None:
+                    w = bytearray(sib[0])
+                    if rng.random() < 0.5:
+                        w = w[: rng.randrange(6, len(w))]
+                    else:
+                        w[-1] ^= 0x41
+                    w = bytes(x if x != 0x7E else 0x7F for x in w) if not cfg[0] else hdlc_gen.on_wire(bytes(w), True)
+                    noise, kind = b"\x7e" + w + rng.choice((b"", b"\x7e")), "damaged_sibling_of_the_clean_frames"
             ctx.count(f"hdlc_noise_{kind}")
             ctx.count(f"hdlc_cfg{int(cfg[0])}{int(cfg[1])}")
             reader_kind = "hdlc"
@@ -156,6 +169,7 @@ def run(shard: dict, ctx) -> None:
         if total < 5000:
             specs.append(("bytewise",))
         specs += [splits.random_spec(rng, total, False) for _ in range(3)]
+        specs.append(splits.structural_spec(noise + suffix, rng))  # calls that begin with a flag and end right after an escape octet
         specs.append(splits.limit_spec(rng, total))
         # cuts near the limits counted from the end of the noise as well
         for lim in (2047, 8192):
